@@ -367,3 +367,41 @@ def _subset_consistency(facts, u, travs, vecs):
     return ok, ("the parameters that contribute to the flat buffers are exactly the ones written back (same predicate on the gradient's presence)" if ok else
                 "the parameters that contribute to the flat buffers (gradient %s) are not the ones written back (mask selects gradient %s): "
                 "values drained for one parameter belong to another" % ("present" if keep_is_some else "absent", "present" if consumer_keeps_is_some else "absent")), co["node"]
+
+
+# ------------------------------------------------------------------ R28
+
+GD_MODULE = "corgi::optimizer::gd::"
+
+
+def r28_stateless_gradient_descent(facts):
+    """R28: the plain gradient-descent optimizer carries no state from one update to the next."""
+    c = Ctx("R28", facts, "the gradient-descent optimizer is memoryless")
+    impls = [b for b in facts.fns() if b.get("impl_trait_def") == "corgi::optimizer::Optimizer" and b.get("name") == "update"]
+    c.floor("Optimizer::update implementations", len(impls), 1)
+    n = 0
+    for u in impls:
+        ty = u.get("impl_self") or ""
+        if not ty.startswith(GD_MODULE):
+            c.ok("optimizer:%s" % ty, "%s:%d" % (F.rel(u["file"]), u["sp"][0]),
+                 "not the plain gradient-descent optimizer of C13 (state such as momentum is its own business)", nontrivial=False)
+            continue
+        n += 1
+        adt = facts.adts.get(ty.split("<")[0])
+        takes_shared_self = (u.get("inputs") or [""])[0].startswith("&") and not (u.get("inputs") or [""])[0].startswith("&mut")
+        where = "%s:%d" % (F.rel(u["file"]), u["sp"][0])
+        c.check(takes_shared_self, "optimizer:%s#self" % ty, where, "update takes &self: it can only change the optimizer through interior mutability",
+                "update takes &mut self: the optimizer can carry state from one update to the next")
+        if adt is None:
+            c.unk("optimizer:%s#fields" % ty, where, "type definition not found")
+            continue
+        for f in facts.adt_fields(adt["def"]):
+            w = f["walk_full"]
+            fw = "%s:%d" % (F.rel(adt["file"]), f["sp"][0])
+            bad = w["cells"] or w["raw_ptrs"] or w["mut_refs"]
+            c.check(not bad, "optimizer:%s.%s" % (ty, f["name"]), fw,
+                    "field %s: %s has no interior mutability" % (f["name"], f["ty"]),
+                    "field %s: %s has interior mutability: with `update(&self, ..)` this is the only way the result of an update can depend on "
+                    "earlier updates (each step must be old - learning_rate * g of the *current* gradients)" % (f["name"], f["ty"]))
+    c.count("gradient-descent optimizers examined", n)
+    return c
